@@ -38,6 +38,7 @@ type opSpec struct {
 	N    int    `json:"n,omitempty"`    // batch: number of consecutive Batch calls (distinct keys); adv: ticks
 	Idle bool   `json:"idle,omitempty"` // the op may start only when nothing else can move (everything blocked or done)
 	After int   `json:"after,omitempty"` // the op may start only after this many Batch calls were issued
+	Pre   bool  `json:"pre,omitempty"`   // sub: "precancelled" - the subscriber's context has already ended when Subscribe is called
 }
 
 const tick = 100 * time.Microsecond
@@ -124,6 +125,8 @@ func runSchedule(b, hb *tv.Batch, prog program, seed int64) result {
 	nowTicks := func() int { return int(clk.Now().Sub(base) / tick) }
 	chans := map[int]chan int{}
 	subBeforeClose := map[int]bool{}
+	subReturned := map[int]bool{} // Subscribe of s has returned
+	ctxEnded := map[int]bool{}    // the context of s was cancelled by the program
 	var closeCalled atomic.Bool
 	var openRacing []int // subscribers (Subscribe overlapping Close) whose channel was open when a Close returned
 	stop := make(chan struct{})
@@ -191,10 +194,19 @@ func runSchedule(b, hb *tv.Batch, prog program, seed int64) result {
 				smu.Unlock()
 				go reader(o.S, o.Kind, ch)
 				rec.ev("sub_call", tv.M{"s": o.S, "kind": o.Kind, "c": ci + 1})
+				if o.Pre {
+					// the context ends before Subscribe runs (the call has been recorded, the goroutine not yet started)
+					smu.Lock()
+					ctxEnded[o.S] = true
+					smu.Unlock()
+					rec.ev("cancel", tv.M{"s": o.S})
+					cancel()
+				}
 				c.cur = ctl.Go(fmt.Sprintf("c%d:sub", ci), func() {
 					bc.Subscribe(ctx, ch)
 					smu.Lock()
 					subBeforeClose[o.S] = !closeCalled.Load()
+					subReturned[o.S] = true
 					smu.Unlock()
 					rec.ev("sub_ret", tv.M{"s": o.S, "c": ci + 1})
 				})
@@ -202,6 +214,9 @@ func runSchedule(b, hb *tv.Batch, prog program, seed int64) result {
 				c.next++
 				smu.Lock()
 				s := subs[o.S]
+				if s != nil {
+					ctxEnded[o.S] = true
+				}
 				smu.Unlock()
 				if s != nil {
 					rec.ev("cancel", tv.M{"s": o.S})
@@ -355,6 +370,25 @@ func runSchedule(b, hb *tv.Batch, prog program, seed int64) result {
 		rec.mu.Lock()
 		rec.evLocked("stuck", tv.M{"n": res.stuck})
 		smu.Lock()
+		// everything is at rest: the channel of a subscriber whose context has ended (and whose Subscribe returned) must be closed
+		var left []int
+		for s := range ctxEnded {
+			if !subReturned[s] {
+				continue
+			}
+			select {
+			case _, ok := <-chans[s]:
+				if ok {
+					left = append(left, s)
+				}
+			default:
+				left = append(left, s)
+			}
+		}
+		sort.Ints(left)
+		for _, s := range left {
+			rec.evLocked("leftopen", tv.M{"s": s})
+		}
 		for _, s := range openRacing {
 			select {
 			case _, ok := <-chans[s]:
@@ -515,7 +549,7 @@ func genProgram(rng *rand.Rand) program {
 		switch r := rng.Intn(14); {
 		case r < 3 && nextS < 3:
 			nextS++
-			p.Clients[c] = append(p.Clients[c], opSpec{Op: "sub", S: nextS, Kind: kinds[rng.Intn(len(kinds))]})
+			p.Clients[c] = append(p.Clients[c], opSpec{Op: "sub", S: nextS, Kind: kinds[rng.Intn(len(kinds))], Pre: rng.Intn(8) == 0})
 			subscribed = append(subscribed, nextS)
 		case r < 8:
 			p.Clients[c] = append(p.Clients[c], opSpec{Op: "batch", Key: keys[rng.Intn(len(keys))], N: 1})
@@ -560,6 +594,7 @@ func TestCheck(t *testing.T) {
 	CL := opSpec{Op: "close"}
 	after := func(o opSpec, n int) opSpec { o.After = n; return o }
 	idle := func(o opSpec) opSpec { o.Idle = true; return o }
+	SP := func(s int, k string) opSpec { return opSpec{Op: "sub", S: s, Kind: k, Pre: true} } // precancelled subscriber
 	staged := []program{
 		// last value per key, once per quiet interval, same sequence for everybody
 		{Clients: [][]opSpec{{S(1, "prompt"), S(2, "slow"), BA("a"), ADV(5), BA("a"), ADV(10), BA("b"), ADV(11)}, {BA("a")}}},
@@ -575,6 +610,25 @@ func TestCheck(t *testing.T) {
 		// Close racing deliveries and departures
 		{Clients: [][]opSpec{{S(1, "slow"), S(2, "prompt"), BA("a"), BA("b"), ADV(10)}, {CL}, {CA(1)}}},
 		{Clients: [][]opSpec{{S(1, "prompt"), S(2, "prompt"), S(3, "slow"), BA("a"), ADV(10)}, {after(CL, 1)}, {after(CL, 1)}}},
+		// who receives a value is decided when it falls due: Batch with no subscriber (yet / any more), Subscribe, clock step
+		{Clients: [][]opSpec{{BA("a"), S(1, "prompt"), ADV(10)}, {after(S(2, "slow"), 1)}}},
+		{Clients: [][]opSpec{{BA("a"), ADV(5), BA("b"), S(1, "slow"), ADV(5), BA("c"), ADV(5), S(2, "prompt"), ADV(5)}}},
+		{Clients: [][]opSpec{{S(1, "prompt"), BA("a"), CA(1), S(2, "prompt"), ADV(10)}, {after(BA("b"), 1)}}},
+		{Clients: [][]opSpec{{S(1, "prompt"), S(2, "slow"), CA(1), CA(2), idle(BA("a")), BA("b"), S(3, "prompt"), ADV(10), BA("a"), ADV(10)}}},
+		// a subscriber whose context has ended before (or right after) Subscribe is called: its channel is closed all the same
+		{Clients: [][]opSpec{{S(1, "prompt"), SP(2, "prompt"), BA("a"), ADV(10)}, {after(SP(3, "slow"), 1), CL}}},
+		{Clients: [][]opSpec{{SP(1, "prompt"), BA("a"), ADV(10), S(2, "prompt"), BA("b"), ADV(10)}, {SP(3, "stalled")}}},
+		{Clients: [][]opSpec{{S(1, "prompt"), BA("a")}, {CA(1)}, {after(CL, 1)}}},
+	}
+	heavy := func(p program) bool { // the 53-value programs are long: fewer schedules of each in the quick tier
+		for _, c := range p.Clients {
+			for _, o := range c {
+				if o.N > 50 {
+					return true
+				}
+			}
+		}
+		return false
 	}
 	nStaged := ev.Pick(25, 400)
 	nRandProg := ev.Pick(150, 5000)
@@ -595,7 +649,11 @@ func TestCheck(t *testing.T) {
 		}
 	}
 	for _, p := range staged {
-		for i := 0; i < nStaged; i++ {
+		n := nStaged
+		if heavy(p) {
+			n = ev.Pick(12, nStaged)
+		}
+		for i := 0; i < n; i++ {
 			run(p, rng.Int63())
 		}
 	}
@@ -675,7 +733,7 @@ func TestCheck(t *testing.T) {
 	}
 	e.Set("evaluations", int64(b.Len()))
 	e.Set("traces_validated_against_impl", int64(jb.Len()))
-	e.Set("rule", "a case = (client program: 2-3 goroutines issuing Subscribe (prompt/slow/stalled reader), Batch over keys a,b,c (or 53 distinct keys), clock advances, cancel, Close) x (seeded schedule over the Batcher's decision points and the slow readers); 8 staged programs + random programs; non-trivial = schedule longer than 6 choices; distinct by (program, schedule)")
+	e.Set("rule", "a case = (client program: 2-3 goroutines issuing Subscribe (prompt/slow/stalled reader), Batch over keys a,b,c (or 53 distinct keys), clock advances, cancel, Close) x (seeded schedule over the Batcher's decision points and the slow readers); 16 staged programs (incl. Batch before/without subscribers, subscribers whose context ended before Subscribe) + random programs; non-trivial = schedule longer than 6 choices; distinct by (program, schedule)")
 	for _, k := range []int{0, len(idx) / 2, len(idx) - 1} {
 		i := idx[k]
 		e.Sample(tv.M{"program": progs[i], "schedule": results[i].schedule, "trace": jb.TraceStrings(k)})
@@ -735,13 +793,44 @@ func selfTest(e *ev.Evidence) {
 	mk([]int{1, 2}, 14) // the superseded value was delivered too
 	mk([]int{2}, 8)     // delivered before the interval elapsed
 	mk([]int{}, 14)     // never delivered
+	late := func(recv bool, subAt int) { // the subscriber joins after the Batch call (Subscribe returns when the clock shows subAt)
+		b.Start(tv.M{})
+		b.Ev("batch_call", tv.M{"n": 1, "key": "a", "due": 10})
+		b.Ev("batch_ret", tv.M{"n": 1})
+		b.Ev("adv", tv.M{"now": subAt})
+		b.Ev("sub_call", tv.M{"s": 1, "kind": "prompt"})
+		b.Ev("sub_ret", tv.M{"s": 1})
+		b.Ev("rwait", tv.M{"s": 1})
+		b.Ev("adv", tv.M{"now": 10})
+		if recv {
+			b.Ev("recv", tv.M{"s": 1, "v": 1})
+		}
+		b.Ev("quiescent", tv.M{"final": true})
+		b.Ev("stuck", tv.M{"n": 0})
+	}
+	late(true, 3)  // fine
+	late(false, 3) // joined well before the value fell due, stayed, never got it
+	late(false, 6) // joined when the value could already have been delivered (0.5 ms early): not demanded
+	gone := func(left bool) { // a subscriber whose context had ended before Subscribe ran
+		b.Start(tv.M{})
+		b.Ev("sub_call", tv.M{"s": 1, "kind": "prompt"})
+		b.Ev("cancel", tv.M{"s": 1})
+		b.Ev("sub_ret", tv.M{"s": 1})
+		b.Ev("quiescent", tv.M{"final": true})
+		b.Ev("stuck", tv.M{"n": 0})
+		if left {
+			b.Ev("leftopen", tv.M{"s": 1})
+		}
+	}
+	gone(false)
+	gone(true) // its channel was never closed
 	rej, res := tv.ValidateChunked(tlc.Opts{Dir: "Batcher", Module: "TraceBatch", Config: "TraceBatch.cfg", Workers: 2, Timeout: 2 * time.Minute}, b)
 	got := map[int]bool{}
 	for _, r := range rej {
 		got[r.Trace] = true
 	}
-	ok := res.OK && !got[0] && got[1] && got[2] && got[3]
-	e.Set("binding_selftest", tv.M{"valid_accepted_superseded_early_and_lost_rejected": ok})
+	ok := res.OK && !got[0] && got[1] && got[2] && got[3] && !got[4] && got[5] && !got[6] && !got[7] && got[8]
+	e.Set("binding_selftest", tv.M{"valid_accepted_superseded_early_lost_latejoiner_and_leftopen_rejected": ok})
 	if !ok {
 		e.Inconclusive(fmt.Sprintf("binding self-test failed: %v %s %s", rej, res.What, res.Tail(600)))
 	}
